@@ -7,6 +7,7 @@ package main
 
 import (
 	"fmt"
+	"math"
 	"sort"
 	"strings"
 
@@ -360,7 +361,12 @@ func checkTable(impl *aggregation.TableAggregator, ref *refTable, where *string,
 	*where = "ComputeMinMax"
 	mn, mx := impl.ComputeMinMax()
 	if wmn, wmx, ok := ref.minMax(); ok && (mn != wmn || mx != wmx) { // S3
-		return failf("C07/table/minmax-mismatch", "ComputeMinMax()=(%d,%d), dense grid with absent=0 gives (%d,%d)", mn, mx, wmn, wmx)
+		sig := "C07/table/minmax-mismatch"
+		if wmn == math.MaxInt64 || wmx == math.MinInt64 {
+			// own class: the true extreme equals the implementation's "nothing seen yet" start value
+			sig += "/extreme-equals-int64-limit"
+		}
+		return failf(sig, "ComputeMinMax()=(%d,%d), dense grid with absent=0 gives (%d,%d)", mn, mx, wmn, wmx)
 	}
 	fmt.Fprintf(&sb, " mm%d,%d", mn, mx)
 	*where = "OrderedColumns"
